@@ -566,6 +566,39 @@ def rapaport_m1 (n : Int) : Option (RawDef) := do
   let name : String := ("rapaport_m1-" ++ pyStr n)
   pure (RawDef.mk generators (some (pyRange (0 : Int) n (1 : Int))) (some generator_names) (some name))
 
+/-- translated from `graphs_lib.py:rapaport_m2` -/
+def rapaport_m2 (n : Int) : Option (RawDef) := do
+  let t_1 ← Cv.PyGen.Perm.transposition n (0 : Int) (1 : Int)
+  let g1 : List Int := t_1
+  let g2 : List Int := (pyRange (0 : Int) n (1 : Int))
+  let st ← List.foldlM (fun (st : (List Int)) (i : Int) => do
+      let g2 := st
+      let t_2 ← pyGet g2 (i + (1 : Int))
+      let t_3 := t_2
+      let t_4 ← pyGet g2 i
+      let t_5 := t_4
+      let g2 ← pySet g2 i t_3
+      let g2 ← pySet g2 (i + (1 : Int)) t_5
+      pure g2
+      ) g2 (pyRange (0 : Int) (n - (1 : Int)) (2 : Int))
+  let g2 := st
+  let g3 : List Int := (pyRange (0 : Int) n (1 : Int))
+  let st ← List.foldlM (fun (st : (List Int)) (i : Int) => do
+      let g3 := st
+      let t_6 ← pyGet g3 (i + (1 : Int))
+      let t_7 := t_6
+      let t_8 ← pyGet g3 i
+      let t_9 := t_8
+      let g3 ← pySet g3 i t_7
+      let g3 ← pySet g3 (i + (1 : Int)) t_9
+      pure g3
+      ) g3 (pyRange (1 : Int) (n - (1 : Int)) (2 : Int))
+  let g3 := st
+  let generators : List (List Int) := [g1, g2, g3]
+  let generator_names : List String := ["(0,1)", "EvenDisjTrans", "OddDisjTrans"]
+  let name : String := ("rapaport_m2-" ++ pyStr n)
+  pure (RawDef.mk generators (some (pyRange (0 : Int) n (1 : Int))) (some generator_names) (some name))
+
 /-- translated from `graphs_lib.py:all_cycles` -/
 def all_cycles (n : Int) : Option (RawDef) := do
   pyAssert (decide (n ≥ (2 : Int)))
@@ -691,6 +724,113 @@ def increasing_k_cycles (n : Int) (k : Int) : Option (RawDef) := do
   let name : String := ("increasing_k_cycles-" ++ pyStr n ++ "-" ++ pyStr k)
   pure (RawDef.mk generators (some (pyRange (0 : Int) n (1 : Int))) (some generator_names) (some name))
 
+/-- translated from `graphs_lib.py:sheveleva2` -/
+def sheveleva2 (n : Int) (k : Int) : Option (RawDef) := do
+  pyAssert (decide ((1 : Int) ≤ k) && decide (k ≤ (n - (3 : Int))))
+  let t_1 ← Cv.PyGen.Perm.permutation_from_cycles n (List.map (fun i => [i, (i + (1 : Int))]) (pyRange (0 : Int) (n - (1 : Int)) (2 : Int))) (0 : Int)
+  let p1 : List Int := t_1
+  let t_2 ← Cv.PyGen.Perm.permutation_from_cycles n (List.map (fun i => [i, (i + (1 : Int))]) (pyRange (1 : Int) (n - (1 : Int)) (2 : Int))) (0 : Int)
+  let p2 : List Int := t_2
+  let st : (List Int) × (List Int) ← (if (((Int.fmod k (2 : Int)) == (1 : Int))) then do
+      let st : (List Int) × (List Int) ← (if ((k == (n - (3 : Int)))) then do
+          let p1 ← pySet p1 (k - (1 : Int)) k
+          let p1 ← pySet p1 k (k + (1 : Int))
+          let p1 ← pySet p1 (k + (1 : Int)) (k + (2 : Int))
+          let p1 ← pySet p1 (k + (2 : Int)) (k - (1 : Int))
+          let p2 ← pySet p2 k k
+          let p2 ← pySet p2 (k + (1 : Int)) (k + (1 : Int))
+          let p2 ← pySet p2 (k + (2 : Int)) (k + (2 : Int))
+          pure (p1, p2)
+        else do
+          let p1 ← pySet p1 (k - (1 : Int)) k
+          let p1 ← pySet p1 k (k + (1 : Int))
+          let p1 ← pySet p1 (k + (1 : Int)) (k + (2 : Int))
+          let p1 ← pySet p1 (k + (2 : Int)) (k - (1 : Int))
+          let p2 ← pySet p2 k k
+          let p2 ← pySet p2 (k + (1 : Int)) (k + (3 : Int))
+          let p2 ← pySet p2 (k + (2 : Int)) (k + (2 : Int))
+          let p2 ← pySet p2 (k + (3 : Int)) (k + (1 : Int))
+          pure (p1, p2)
+        )
+      let p1 := st.1
+      let p2 := st.2
+      pure (p1, p2)
+    else do
+      let st : (List Int) × (List Int) ← (if ((k == (n - (3 : Int)))) then do
+          let p2 ← pySet p2 (k - (1 : Int)) k
+          let p2 ← pySet p2 k (k + (1 : Int))
+          let p2 ← pySet p2 (k + (1 : Int)) (k + (2 : Int))
+          let p2 ← pySet p2 (k + (2 : Int)) (k - (1 : Int))
+          let p1 ← pySet p1 k k
+          let p1 ← pySet p1 (k + (1 : Int)) (k + (1 : Int))
+          let p1 ← pySet p1 (k + (2 : Int)) (k + (2 : Int))
+          pure (p2, p1)
+        else do
+          let p2 ← pySet p2 (k - (1 : Int)) k
+          let p2 ← pySet p2 k (k + (1 : Int))
+          let p2 ← pySet p2 (k + (1 : Int)) (k + (2 : Int))
+          let p2 ← pySet p2 (k + (2 : Int)) (k - (1 : Int))
+          let p1 ← pySet p1 k k
+          let p1 ← pySet p1 (k + (1 : Int)) (k + (3 : Int))
+          let p1 ← pySet p1 (k + (2 : Int)) (k + (2 : Int))
+          let p1 ← pySet p1 (k + (3 : Int)) (k + (1 : Int))
+          pure (p2, p1)
+        )
+      let p2 := st.1
+      let p1 := st.2
+      pure (p1, p2)
+    )
+  let p1 := st.1
+  let p2 := st.2
+  let st : (List (List Int)) ← (if (((Int.fmod k (2 : Int)) == (1 : Int))) then do
+      let generators : List (List Int) := [p2, p1]
+      pure generators
+    else do
+      let generators : List (List Int) := [p1, p2]
+      pure generators
+    )
+  let generators := st
+  let generator_names : List String := ["A", "S"]
+  let name : String := ("sheveleva2-n" ++ pyStr n ++ "-k" ++ pyStr k)
+  pure (RawDef.mk generators (some (pyRange (0 : Int) n (1 : Int))) (some generator_names) (some name))
+
+/-- default value of `koltsov3(perm_type=…)` in the source -/
+def koltsov3_default_perm_type : Int := (2 : Int)
+
+/-- default value of `koltsov3(k=…)` in the source -/
+def koltsov3_default_k : Int := (1 : Int)
+
+/-- default value of `koltsov3(d=…)` in the source -/
+def koltsov3_default_d : Int := (1 : Int)
+/-- translated from `graphs_lib.py:koltsov3` -/
+def koltsov3 (n : Int) (perm_type : Int) (k : Int) (d : Int) : Option (RawDef) := do
+  pyAssert (decide (k < n))
+  pyAssert ((List.contains [(1 : Int), (2 : Int)] perm_type))
+  let t_1 ← Cv.PyGen.Perm.permutation_from_cycles n (List.map (fun i => [i, (i + (1 : Int))]) (pyRange (0 : Int) (n - (1 : Int)) (2 : Int))) (0 : Int)
+  let t_2 ← Cv.PyGen.Perm.permutation_from_cycles n (List.map (fun i => [i, (i + (1 : Int))]) (pyRange (1 : Int) (n - (1 : Int)) (2 : Int))) (0 : Int)
+  let generators : List (List Int) := [t_1, t_2]
+  let st : (List (List Int)) ← (if ((perm_type == (1 : Int))) then do
+      pyAssert (decide ((k + d) < n))
+      let t_3 ← Cv.PyGen.Perm.permutation_from_cycles n [[k, (k + d)]] (0 : Int)
+      let generators := generators ++ [t_3]
+      pure generators
+    else do
+      let st : (List (List Int)) ← (if ((perm_type == (2 : Int))) then do
+          pyAssert (decide ((k + (3 : Int)) < n))
+          let t_4 ← Cv.PyGen.Perm.permutation_from_cycles n [[k, (k + (3 : Int))], [(k + (1 : Int)), (k + (2 : Int))]] (0 : Int)
+          let generators := generators ++ [t_4]
+          pure generators
+        else do
+          pure generators
+        )
+      let generators := st
+      pure generators
+    )
+  let generators := st
+  let generator_names : List String := ["I", "K", "S"]
+  let name : String := ("koltsov3-n" ++ pyStr n ++ "-k" ++ pyStr k)
+  pure (RawDef.mk generators (some (pyRange (0 : Int) n (1 : Int))) (some generator_names) (some name))
+
 /-- translated from `graphs_lib.py:consecutive_k_cycles` -/
 def consecutive_k_cycles (n : Int) (k : Int) : Option (RawDef) := do
   pyAssert ((decide (n ≥ (1 : Int))) && (decide ((1 : Int) ≤ k) && decide (k ≤ n)))
@@ -755,17 +895,9 @@ def prefix_cycles (n : Int) : Option (RawDef) := do
   let name : String := ("prefix_cycles-" ++ pyStr n)
   pure (RawDef.mk generators (some (pyRange (0 : Int) n (1 : Int))) (some generator_names) (some name))
 
--- NOT TRANSLATED `_create_disjoint_adjacent_swaps`: not translated: decorator lru_cache(maxsize=None)
-
 -- NOT TRANSLATED `prepare_graph`: not translated: star arguments
 
 -- NOT TRANSLATED `involutive_derangements`: not translated: local function generate_matchings uses outer variables ['first', 'generate_matchings', 'i', 'matching', 'partner', 'remaining', 'result']
-
--- NOT TRANSLATED `rapaport_m2`: not translated: call of _create_disjoint_adjacent_swaps
-
--- NOT TRANSLATED `sheveleva2`: not translated: call of _create_disjoint_adjacent_swaps
-
--- NOT TRANSLATED `koltsov3`: not translated: call of _create_disjoint_adjacent_swaps
 
 -- NOT TRANSLATED `conjugacy_classes`: not translated: annotation dict[tuple[int], Union[int, None]]
 
